@@ -18,7 +18,13 @@ type Layout struct {
 	PadLocals  int // dummy locals declared first (moves registers)
 	LocalFnAlt bool
 	Seed       uint64
+	// Header: the text starts with a comment line of its own (HeaderLine). A loader that reads the program from a
+	// file may put a '#' line in its place: the line count, and with it every source position, stays the same.
+	Header bool
 }
+
+// HeaderLine is the first line of a program rendered with Layout.Header.
+const HeaderLine = "-- header"
 
 // Chooser is the subset of the choice tape the renderer/generator needs.
 type Chooser interface {
@@ -40,6 +46,7 @@ func DrawLayout(t Chooser) *Layout {
 	l.PadLocals = []int{0, 0, 1, 3, 7, 20}[t.Choose(6)]
 	l.LocalFnAlt = t.Choose(2) == 1
 	l.Seed = uint64(t.Choose(1 << 30))
+	l.Header = t.Choose(4) == 0
 	return l
 }
 
@@ -421,6 +428,10 @@ func Render(p *Program, lay *Layout) *Rendered {
 	for _, b := range PreludeBuiltin {
 		ls = append(ls, b.Local)
 		rs = append(rs, b.Global)
+	}
+	if lay.Header {
+		r.sb.WriteString(HeaderLine)
+		r.nl()
 	}
 	r.sb.WriteString("local " + strings.Join(ls, ", ") + " = " + strings.Join(rs, ", "))
 	r.nl()
